@@ -4,6 +4,7 @@ import Kopf.Drv.C05
 import Kopf.Drv.C14
 import Kopf.Model.C03_Loop
 import Kopf.Model.C03_Relist
+import Kopf.Model.C03_Change
 open Lean
 namespace Kopf.Drv.C03
 open Kopf.C03 Kopf
@@ -162,6 +163,15 @@ def handle : DrvHandler := fun op args =>
         ("writes", .num (JsonNumber.fromNat s.writes)),
         ("base", baseJson s),
         ("P", recsJson univ s.P)]))
+  | "C03.change", [old, new] => do
+      -- the class of (last-handled, essence) that `_detect_causes` hands to the cause detection, from the JSON values
+      -- themselves (`old` = null: no last-handled state on the object); with the variant comparison of seed C03h besides
+      let n ← toJ new
+      let o ← match old with
+        | .null => some none
+        | v => (toJ v).map some
+      let name : BaseClass → String := fun c => match c with | .none => "none" | .same => "same" | .diff => "diff"
+      some (ok (Json.mkObj [("base", .str (name (baseClass o n))), ("variantPfx", .str (name (baseClassBy samePfx o n)))]))
   | "C03.unstable", [j] => do
       -- the first `turns` turns of the loop of `envOfU` (a filter that reads the framework's own finalizer) from a
       -- fresh object: the instance of `Kopf.C03.unstable_filters_witness`
